@@ -145,7 +145,11 @@ impl<P: Problem> Selection<P> for FullyRandom {
     ) -> ExecResult<Vec<&'a Individual<P>>> {
         let mut selection = Vec::new();
         for _ in 0..self.num_selected {
-            selection.push(population.choose(rng).unwrap());
+            selection.push(
+                population
+                    .choose(rng)
+                    .wrap_err("the population does not contain any individuals to sample from")?,
+            );
         }
         Ok(selection)
     }
@@ -358,7 +362,7 @@ impl<P: SingleObjectiveProblem> Selection<P> for Tournament {
             let winner = population
                 .choose_multiple(rng, self.size as usize)
                 .min_by_key(|&i| i.objective())
-                .unwrap();
+                .wrap_err("the tournament size must be greater than zero")?;
             selection.push(winner);
         }
         Ok(selection)
